@@ -113,6 +113,15 @@ def wfPlan (retries : Nat) (cfg : Config) (plan : Plan) : Bool :=
   (cfg.gather.players == .skip || wfUnit retries plan.players) &&
   (cfg.gather.rules == .skip || wfUnit retries plan.rules)
 
+/-- the same, asked only of the units the query reaches (a unit behind the one that ends the query is never run: its
+plan, and whatever else the script holds from there on, is irrelevant) -/
+def wfPlanReached (retries : Nat) (cfg : Config) (st : State) (plan : Plan) : Bool :=
+  wfUnit retries plan.info &&
+  (plan.info.error.isSome || !appIdOk cfg.engine cfg.gather st.info.appid ||
+    ((cfg.gather.players == .skip || wfUnit retries plan.players) &&
+     ((cfg.gather.players == .enforce && plan.players.error.isSome) ||
+       cfg.gather.rules == .skip || wfUnit retries plan.rules)))
+
 /-- `maybe_gather!` over a unit's end -/
 def sectionOutcome (t : Toggle) (p : UnitPlan) (v : α) : Res (Option α) :=
   if t == .skip then .ok none
